@@ -313,6 +313,11 @@ def _term_vs_const(I, run, o, a, b: C, node, fork) -> Optional[bool]:
         except TypeError:
             I.raise_builtin(run, "TypeError", node)
     isint = run.kind_of(a) == "int" and isinstance(c, int)
+    if isinstance(a, App) and a.op in ("+", "-"):
+        # linear arithmetic: a fact recorded on another spelling of the same sum (9 - x - y  vs  x + y, counting up vs counting down)
+        lb = _lin_bounds(run, a)
+        if lb is not None:
+            f.lo, f.hi = max(f.lo, lb[0]), min(f.hi, lb[1])
     lo, hi = f.lo, f.hi
     if o == "<":
         if hi < c:
@@ -558,6 +563,51 @@ def _format_template(I, run, fmt: str, args, kwargs, node):
     return concat(out, "str")
 
 
+def _lin(t):
+    """linear normal form of an integer term: ({atom key: coefficient}, constant) or None"""
+    if isinstance(t, C):
+        return ({}, t.v) if isinstance(t.v, int) and not isinstance(t.v, bool) else None
+    if isinstance(t, App) and t.op in ("+", "-") and len(t.args) == 2:
+        a, b = _lin(t.args[0]), _lin(t.args[1])
+        if a is None or b is None:
+            return None
+        sgn = 1 if t.op == "+" else -1
+        m = dict(a[0])
+        for k_, c_ in b[0].items():
+            m[k_] = m.get(k_, 0) + sgn * c_
+        return {k_: c_ for k_, c_ in m.items() if c_}, a[1] + sgn * b[1]
+    if isinstance(t, (Sym, App)):
+        return {t.key(): 1}, 0
+    return None
+
+
+def _lin_bounds(run, term):
+    """Bounds of a sum implied by the facts on other terms with the same (or the negated) variable part."""
+    l = _lin(term)
+    if l is None or not l[0]:
+        return None
+    vars_, const = l
+    neg = {k: -c for k, c in vars_.items()}
+    lo, hi = -INF, INF
+    for k, fk in run.facts.items():
+        t = run.fact_terms.get(k)
+        if t is None or t is term or not isinstance(t, App) or t.op not in ("+", "-"):
+            continue
+        if fk.lo == -INF and fk.hi == INF:
+            continue
+        lt = _lin(t)
+        if lt is None:
+            continue
+        if lt[0] == vars_:      # t = V + ct, term = V + const
+            d = const - lt[1]
+            lo, hi = max(lo, fk.lo + d), min(hi, fk.hi + d)
+        elif lt[0] == neg:      # t = -V + ct, term = V + const  =>  term = -(t - ct) + const
+            lo, hi = max(lo, -(fk.hi - lt[1]) + const), min(hi, -(fk.lo - lt[1]) + const)
+    if lo == -INF and hi == INF:
+        return None
+    return lo, hi
+
+
 def _rng(run, v):
     if _num(v):
         return (v.v, v.v)
@@ -718,6 +768,9 @@ def subscript(I, run, base: Value, idx, node) -> Value:
                 return base.items[idx.v]
             except IndexError:
                 I.raise_builtin(run, "IndexError", node, idx)
+        t = _table_lookup(I, run, base, idx, node)
+        if t is not None:
+            return t
         return App("index", (base, idx))
     if isinstance(base, C):
         if base.v is None:
@@ -781,6 +834,50 @@ def simplify_be16(res: Value) -> Value:
             if hx is not None and _is_byte(y, 0) and y.args[0].key() == hx.key():
                 return hx
     return res
+
+
+def _column_term(I, run, vals, idx, node):
+    """TABLE[idx] for a constant column of a table with 2^k rows and an index known to lie inside it: the constant when the
+    column is constant, the index when it is the identity, the bit-field (idx >> s) & (2^w - 1) when the column *is* that
+    function of the index (decided by going through every row) -- so that a decoder written as a lookup table is the same
+    term as one written with shifts and masks.  None when the column is none of these."""
+    n = len(vals)
+    if len(set(vals)) == 1:
+        return C(vals[0])
+    if all(isinstance(v, int) and not isinstance(v, bool) for v in vals):
+        if all(v == i for i, v in enumerate(vals)):
+            return idx
+        bits = n.bit_length() - 1
+        if 1 << bits == n:
+            for s_ in range(bits):
+                for w in range(1, bits - s_ + 1):
+                    m = (1 << w) - 1
+                    if all(v == (i >> s_) & m for i, v in enumerate(vals)):
+                        t = binop(I, run, ast.RShift(), idx, C(s_), node) if s_ else idx
+                        if s_ + w == bits and s_:
+                            return t      # the top bits: the shift alone already is the field
+                        return binop(I, run, ast.BitAnd(), t, C(m), node)
+    return None
+
+
+def _table_lookup(I, run, base: Tup, idx: Value, node):
+    if not isinstance(idx, (Sym, App)) or run.kind_of(idx) not in ("int", None) or not (2 <= len(base.items) <= 65536):
+        return None
+    r = _rng(run, idx)
+    if r is None or r[0] < 0 or r[1] >= len(base.items):
+        return None
+    rows = [I.resolve(run, x) for x in base.items]
+    if all(isinstance(x, C) for x in rows):
+        return _column_term(I, run, [x.v for x in rows], idx, node)
+    if all(isinstance(x, Tup) for x in rows) and len({len(x.items) for x in rows}) == 1 and all(isinstance(y, C) for x in rows for y in x.items):
+        cols = []
+        for j in range(len(rows[0].items)):
+            c = _column_term(I, run, [x.items[j].v for x in rows], idx, node)
+            if c is None:
+                c = App("index", (Tup(tuple(x.items[j] for x in rows)), idx), "int")
+            cols.append(c)
+        return Tup(tuple(cols))
+    return None
 
 
 def store_subscript(I, run, base: Value, idx, v: Value, node):
@@ -942,6 +1039,20 @@ def call_cmethod(I, run, recv: Value, name: str, args: List[Value], kwargs, node
         return App("m:" + name, (recv,) + tuple(args), "bytes" if name == "to_bytes" else "int")
     if isinstance(recv, C):
         I.raise_builtin(run, "AttributeError", node, C(f"{type(recv.v).__name__}.{name}"))
+    # ---- the operator protocol spelled as methods: d.__contains__(k), l.__getitem__(i), x.__len__(), ...
+    if name in ("__contains__", "__getitem__", "__len__", "__setitem__", "__iter__") and isinstance(recv, (Ref, Tup, C)):
+        if name == "__contains__" and len(args) == 1:
+            return C(bool(contains(I, run, args[0], recv, node)))
+        if name == "__getitem__" and len(args) == 1:
+            return I.resolve(run, subscript(I, run, recv, args[0], node))
+        if name == "__len__" and not args:
+            return _b_len(I, run, [recv], {}, node)
+        if name == "__setitem__" and len(args) == 2 and isinstance(recv, Ref):
+            store_subscript(I, run, recv, args[0], args[1], node)
+            return NONE
+        if name == "__iter__" and not args:
+            from . import hof
+            return hof.direct(I, run, "builtins.iter", [recv], {}, node)
     # ---- heap containers
     if isinstance(recv, Ref):
         c = run.cell(recv)
@@ -1146,6 +1257,11 @@ def call(I, run, fn: Value, args: List[Value], kwargs: Dict[str, Value], node) -
         return I.inline(run, fn.fn, [fn.recv] + args, kwargs, node)
     if isinstance(fn, Fn):
         q = fn.qualname
+        cap = run.memo.get("@capture")
+        if cap is not None and fn.env is not None and q.startswith(cap):
+            from .absint import CaptureSig
+            run.memo["@captured"] = fn.env
+            raise CaptureSig()
         if q in cfg.stubs:
             return cfg.stubs[q](I, run, args, kwargs, node)
         if q in cfg.no_inline:
@@ -1237,6 +1353,14 @@ def call(I, run, fn: Value, args: List[Value], kwargs: Dict[str, Value], node) -
             return hof.method(I, run, recv, mname, args, kwargs, node)
         if _ba_parts(run, recv) is not None:
             return bytearray_method(I, run, recv, mname, args, kwargs, node)
+        if I.is_generator_obj(run, recv) and mname in ("send", "__next__", "close", "__iter__"):
+            if mname == "__iter__":
+                return recv
+            if mname == "close":
+                run.memo[("generator", recv.addr)].close()
+                run.cell(recv).fields["@dead"] = TRUE
+                return NONE
+            return I.generator_next(run, recv, node, sent=args[0] if (mname == "send" and args) else None)
         if isinstance(recv, Sym) and recv.name.startswith("Lock#") and mname in ("acquire", "release", "__enter__", "__exit__") \
                 and f"Lock.{mname}" not in cfg.stubs:
             # explicit acquire()/release() open and close the same critical section a `with` statement does
@@ -1594,6 +1718,9 @@ def _b_sum(I, run, args, kwargs, node):
 
 
 def _b_map(I, run, args, kwargs, node):
+    if len(args) > 2:
+        its = [list(I.iterate(run, I.resolve(run, a), node)) for a in args[1:]]
+        return run.alloc(HList([call(I, run, args[0], list(xs), {}, node) for xs in zip(*its)], oneshot=True))
     f, it = args[0], I.resolve(run, args[1])
     if isinstance(it, (Sym, App)):
         return App("map", (f, it))
